@@ -31,6 +31,11 @@ func c03Step(server bool, prop string) {
 	msg := verifBytes("datagram", n)
 	from := sessAddr("from")
 
+	// the application may not be draining the receive queue: empty or full
+	prefill := verifPick("recv-queue-prefilled", 0, 2)
+	for i := 0; i < prefill; i++ {
+		ss.handle.recv.C <- []byte{0xEE}
+	}
 	oldState, oldWin, oldAddr := ss.handleState, ss.window, ss.remoteAddr
 	var err error
 	if server {
@@ -42,7 +47,10 @@ func c03Step(server bool, prop string) {
 	}
 	nOpen := len(sessLog.opens)
 	opened := nOpen > 0 && sessLog.opens[nOpen-1].ok
-	delivered := len(ss.handle.recv.C) > 0
+	delivered := len(ss.handle.recv.C) > prefill
+	for i := 0; i < prefill; i++ {
+		<-ss.handle.recv.C
+	}
 
 	if prop == "C03" {
 		verifAssert(nOpen <= 1, "C03: at most one AEAD open per datagram")
@@ -95,8 +103,12 @@ func c03Step(server bool, prop string) {
 			verifAssert(err == nil, "C15: the address does not move on an error path")
 			verifCover("moved")
 		}
-		if opened && err == nil && msg[0] == byte(MessageTypeTransport) {
-			// roaming works: after a genuine packet the session points at its source
+		if opened && msg[0] == byte(MessageTypeTransport) {
+			// roaming works: after a genuine packet the session points at its
+			// source, whether or not the application had room to queue it
+			if prefill > 0 {
+				verifCover("genuine-while-queue-full")
+			}
 			verifAssert(sessAddrEq(ss.remoteAddr, from), "C15: after a genuine packet from a new address (IP or port), traffic goes to that address")
 			verifCover("genuine")
 		}
@@ -110,7 +122,7 @@ func c03Step(server bool, prop string) {
 //verif:prop C03
 //verif:replay none
 //verif:stub hop.computer/hop/kravatte.NewSANSE = sessNewSANSE
-//verif:bounds one datagram, length symbolic 0..65535, all bytes symbolic, from an arbitrary session state (keys, window, lifecycle, peer address); AEAD open nondeterministic and recorded
+//verif:bounds one datagram, length symbolic 0..65535, all bytes symbolic, from an arbitrary session state (keys, window, lifecycle, peer address, receive queue of capacity 2 empty or full); AEAD open nondeterministic and recorded
 //verif:cover delivered;closed-by-control;rejected
 func VH_C03_server_receive_step() { c03Step(true, "C03") }
 
@@ -124,15 +136,15 @@ func VH_C03_client_receive_step() { c03Step(false, "C03") }
 //verif:prop C15
 //verif:replay none
 //verif:stub hop.computer/hop/kravatte.NewSANSE = sessNewSANSE
-//verif:bounds one datagram of symbolic length and content from an arbitrary source address against an arbitrary session state; AEAD open nondeterministic and recorded
-//verif:cover moved;genuine;forged
+//verif:bounds one datagram of symbolic length and content from an arbitrary source address against an arbitrary session state, receive queue (capacity 2) empty or full; AEAD open nondeterministic and recorded
+//verif:cover moved;genuine;forged;genuine-while-queue-full
 func VH_C15_server_address_moves_only_on_authentic() { c03Step(true, "C15") }
 
 //verif:prop C15
 //verif:replay none
 //verif:stub hop.computer/hop/kravatte.NewSANSE = sessNewSANSE
 //verif:bounds as the server variant
-//verif:cover moved;genuine;forged
+//verif:cover moved;genuine;forged;genuine-while-queue-full
 func VH_C15_client_address_moves_only_on_authentic() { c03Step(false, "C15") }
 
 // C15: traffic is sent to the session's current peer address.
